@@ -613,3 +613,21 @@ mod tree;
 mod value;
 
 // Exports
+
+/// Verification hook: the token vector of a string in a canonical text form.
+/// Only compiled with the `verif-hooks` feature; it observes the tokenizer and changes nothing.
+#[cfg(feature = "verif-hooks")]
+pub fn verif_tokenize(string: &str) -> EvalexprResult<Vec<String>> {
+    use crate::token::Token;
+    Ok(token::tokenize::<DefaultNumericTypes>(string)?
+        .into_iter()
+        .map(|token| match token {
+            Token::Identifier(identifier) => format!("ID:{}", identifier),
+            Token::Float(float) => format!("F:{:016x}", float.to_bits()),
+            Token::Int(int) => format!("I:{}", int),
+            Token::Boolean(boolean) => format!("B:{}", boolean),
+            Token::String(string) => format!("S:{}", string),
+            token => format!("{:?}", token),
+        })
+        .collect())
+}
